@@ -128,59 +128,67 @@ func runC13(p *core.Prog, r *core.Report) {
 			fn := p.Func(pkgBlock, name)
 			r.Touch(core.FuncName(fn))
 			calls := core.FindInstrs(fn, core.IsCallTo(newRange))
-			if len(calls) != 1 {
-				core.Undecide("%s: expected one NewRange call", name)
+			if len(calls) == 0 {
+				core.Undecide("%s: no NewRange call", name)
 			}
-			c := calls[0].(*ssa.Call)
-			lo, hi := c.Call.Args[0], c.Call.Args[1]
-			// upper bound = min(floor + interval, exclusiveEndBlock)
-			okClip, okUpper, okLower := false, false, false
-			var floor ssa.Value
-			if mc, ok := hi.(*ssa.Call); ok {
-				if b, ok := mc.Call.Value.(*ssa.Builtin); ok && b.Name() == "min" && len(mc.Call.Args) == 2 {
-					var other ssa.Value
-					for i, a := range mc.Call.Args {
-						if f, _ := core.LoadedField(a); f == end {
-							okClip = true
-							other = mc.Call.Args[1-i]
+			// every range the builder can return obeys the three rules (a shortcut path building its own range is not exempt)
+			for ci, call := range calls {
+				c := call.(*ssa.Call)
+				name := name
+				if ci > 0 {
+					name = fmt.Sprintf("%s#%d", name, ci+1)
+				}
+				base := strings.SplitN(name, "#", 2)[0]
+				lo, hi := c.Call.Args[0], c.Call.Args[1]
+				// upper bound = min(floor + interval, exclusiveEndBlock)
+				okClip, okUpper, okLower := false, false, false
+				var floor ssa.Value
+				if mc, ok := hi.(*ssa.Call); ok {
+					if b, ok := mc.Call.Value.(*ssa.Builtin); ok && b.Name() == "min" && len(mc.Call.Args) == 2 {
+						var other ssa.Value
+						for i, a := range mc.Call.Args {
+							if f, _ := core.LoadedField(a); f == end {
+								okClip = true
+								other = mc.Call.Args[1-i]
+							}
 						}
-					}
-					if bo, ok := other.(*ssa.BinOp); ok && bo.Op == token.ADD {
-						if f, _ := core.LoadedField(bo.Y); f == interval {
-							floor = bo.X
-						} else if f, _ := core.LoadedField(bo.X); f == interval {
-							floor = bo.Y
+						if bo, ok := other.(*ssa.BinOp); ok && bo.Op == token.ADD {
+							if f, _ := core.LoadedField(bo.Y); f == interval {
+								floor = bo.X
+							} else if f, _ := core.LoadedField(bo.X); f == interval {
+								floor = bo.Y
+							}
 						}
 					}
 				}
-			}
-			if floor != nil {
-				switch name {
-				case "Segmenter.firstRange":
-					// floor = initial - initial % interval
-					if bo, ok := floor.(*ssa.BinOp); ok && bo.Op == token.SUB {
-						fx, _ := core.LoadedField(bo.X)
-						if rem, ok := bo.Y.(*ssa.BinOp); ok && rem.Op == token.REM && fx == initial {
-							f1, _ := core.LoadedField(rem.X)
-							f2, _ := core.LoadedField(rem.Y)
-							okUpper = f1 == initial && f2 == interval
+				if floor != nil {
+					switch base {
+					case "Segmenter.firstRange":
+						// floor = initial - initial % interval
+						if bo, ok := floor.(*ssa.BinOp); ok && bo.Op == token.SUB {
+							fx, _ := core.LoadedField(bo.X)
+							if rem, ok := bo.Y.(*ssa.BinOp); ok && rem.Op == token.REM && fx == initial {
+								f1, _ := core.LoadedField(rem.X)
+								f2, _ := core.LoadedField(rem.Y)
+								okUpper = f1 == initial && f2 == interval
+							}
 						}
+						fl, _ := core.LoadedField(lo)
+						okLower = fl == initial
+					case "Segmenter.followingRange":
+						// floor = uint64(idx) * interval, and the lower bound is that same floor
+						if bo, ok := core.SkipConv(floor).(*ssa.BinOp); ok && bo.Op == token.MUL {
+							fy, _ := core.LoadedField(bo.Y)
+							_, isPrm := core.SkipConv(bo.X).(*ssa.Parameter)
+							okUpper = fy == interval && isPrm
+						}
+						okLower = sameExpr(lo, floor, 3)
 					}
-					fl, _ := core.LoadedField(lo)
-					okLower = fl == initial
-				case "Segmenter.followingRange":
-					// floor = uint64(idx) * interval, and the lower bound is that same floor
-					if bo, ok := core.SkipConv(floor).(*ssa.BinOp); ok && bo.Op == token.MUL {
-						fy, _ := core.LoadedField(bo.Y)
-						_, isPrm := core.SkipConv(bo.X).(*ssa.Parameter)
-						okUpper = fy == interval && isPrm
-					}
-					okLower = sameExpr(lo, floor, 3)
 				}
+				r.Check(okClip, "C13.R3", name+"/clip", "the segment's upper bound is clipped with min(_, exclusiveEndBlock)", "no min(…, s.exclusiveEndBlock) on the upper bound", p.Pos(c.Pos()))
+				r.Check(okUpper, "C13.R3", name+"/upper", "the unclipped upper bound is the segment's floor plus the interval (floor = initial − initial%interval, resp. idx×interval)", "upper bound has another shape", p.Pos(c.Pos()))
+				r.Check(okLower, "C13.R3", name+"/lower", "the first segment starts at the initial block, a following segment at its floor idx×interval", "lower bound has another shape", p.Pos(c.Pos()))
 			}
-			r.Check(okClip, "C13.R3", name+"/clip", "the segment's upper bound is clipped with min(_, exclusiveEndBlock)", "no min(…, s.exclusiveEndBlock) on the upper bound", p.Pos(c.Pos()))
-			r.Check(okUpper, "C13.R3", name+"/upper", "the unclipped upper bound is the segment's floor plus the interval (floor = initial − initial%interval, resp. idx×interval)", "upper bound has another shape", p.Pos(c.Pos()))
-			r.Check(okLower, "C13.R3", name+"/lower", "the first segment starts at the initial block, a following segment at its floor idx×interval", "lower bound has another shape", p.Pos(c.Pos()))
 		}
 		// guards
 		rg := p.Func(pkgBlock, "Segmenter.Range")
